@@ -5,6 +5,7 @@ from __future__ import annotations
 
 import re
 import shutil
+import signal
 import tempfile
 from fractions import Fraction
 from pathlib import Path
@@ -13,6 +14,15 @@ import common
 
 HUGE = "9" * 400                      # a 400-digit integer literal
 TINY = "0." + "0" * 320 + "1"         # 1e-321 (a denormal double)
+
+
+class _Timeout(BaseException):
+    """Raised by the alarm; a BaseException so that no `except Exception` of the
+    library swallows it."""
+
+
+def _on_alarm(signum, frame):
+    raise _Timeout()
 
 
 class Ctx:
@@ -35,14 +45,25 @@ class Ctx:
             self.wtp.start_page(self.title)
         return self.wtp.expand(text)
 
-    def run(self, text: str):
-        """-> ("ok", output) or ("exc", 'Type: message')"""
+    def run(self, text: str, limit: float = 3.0):
+        """-> ("ok", output) or ("exc", 'Type: message'); a call that does not
+        return within `limit` seconds is reported as ("exc", "Timeout: ...")"""
+        old = signal.signal(signal.SIGALRM, _on_alarm)
+        signal.setitimer(signal.ITIMER_REAL, limit)
         try:
             return ("ok", self.expand(text))
+        except _Timeout:
+            signal.setitimer(signal.ITIMER_REAL, 0)
+            self.wtp.start_page(self.title)
+            return ("exc", f"Timeout: no result within {limit:g} s")
         except Exception as e:  # noqa: BLE001 - an escaping exception is the observation
+            signal.setitimer(signal.ITIMER_REAL, 0)
             # an escaping exception leaves its frames on expand_stack; start afresh
             self.wtp.start_page(self.title)
             return ("exc", f"{type(e).__name__}: {e}"[:200])
+        finally:
+            signal.setitimer(signal.ITIMER_REAL, 0)
+            signal.signal(signal.SIGALRM, old)
 
     def close(self):
         try:
